@@ -695,3 +695,17 @@ Proof.
     apply app_nil_both in H2. destruct H2 as [Ha Hb]. apply spec_if_nil in Ha. apply spec_if_nil in Hb.
     apply Z.leb_le in Ha. apply Z.leb_le in Hb. split; assumption.
 Qed.
+
+(* F12 repaired, for every number of rounds: when the escrow holds exactly the escrowed stake and the fees of all rounds,
+   an AGAINST execution pays all of it out (burn + stake and fees-minus-burn-amount to the backers) except the voters'
+   pot and at most the odd unit of the halved burn amount *)
+Theorem against_pays_out_everything fx s s' :
+  0 <= s_burn s -> is_invalid (s_result s) = false -> is_support (s_result s) = false ->
+  execute_vote fx s = (s', OK) -> s_esc s = s_slash s + s_feetotal s ->
+  s_reward s' <= s_esc s' <= s_reward s' + 1.
+Proof.
+  intros Hb Hi Hs He Hesc.
+  pose proof (execute_vote_amounts fx s s' Hb He) as H. cbv zeta in H.
+  destruct H as (_ & _ & _ & _ & Hb0 & Hr0 & _ & _ & Hsum & Hout & _).
+  rewrite Hi, Hs in Hout. lia.
+Qed.
